@@ -111,6 +111,10 @@ def main(argv=None):
     evaluations = states = transitions = 0
     exhaustive = None
     extra = {}
+    reach = {}
+    for o in outs:
+        for f, qs in o.get("reach", {}).items():
+            reach.setdefault(f, set()).update(qs)
     for o in outs:
         evaluations += o.get("evaluations", 0)
         states += o.get("states", 0)
@@ -132,6 +136,18 @@ def main(argv=None):
         for k, v in o.get("extra", {}).items():
             extra.setdefault(k, v)
 
+    # reach: which functions of the property's anchor files were entered by this run
+    anchors = []
+    try:
+        for line in open(os.path.join(VERIF, "properties.jsonl")):
+            pj = json.loads(line)
+            if pj["id"] == prop:
+                anchors = pj["anchors"]["files"]
+    except Exception:
+        pass
+    anchor_hits = {f: len(reach.get(f, ())) for f in anchors}
+    if not a.replay and anchors and reach and not any(anchor_hits.values()):
+        inconcl.append("no function of any anchor file of %s was entered (monitors bypassed?)" % prop)
     # reach discipline: deciding monitors that never fired -> inconclusive
     if not a.replay:
         for key in getattr(eng, "REQUIRED", {}).get(prop, []):
@@ -178,6 +194,8 @@ def main(argv=None):
                 "known_findings_seen": {k: v["n"] for k, v in known_seen.items()},
                 "violations_of_other_properties_seen": other,
                 "inconclusive_reasons": inconcl[:10],
+                "anchor_functions_hit": anchor_hits,
+                "repo_functions_entered": sum(len(v) for v in reach.values()),
             },
             "assumptions": getattr(eng, "ASSUMPTIONS", {}).get(prop, []),
             "wall_s": round(wall, 2),
